@@ -309,20 +309,17 @@ def check_stack(chk, name, ref, variant, args, okpaths, file):
             else:
                 ln = ref['length']
                 val16 = O(16, 'trunc', O(32, 'add', osp.entry_reg('ip'), C(32, ln)))
+            exp_hi = O(8, 'trunc', O(16, 'shr', val16, C(16, 8)))
+            exp_lo = O(8, 'trunc', val16)
+
+            def is_byte(v, exp, which):
+                return v == exp or equal_mod(v, exp, env, 8) or value_is_byte(v, val16, which, env)
             ok = (len(bus) == 2 and all(b['kind'] == 'w' and b['width'] == 8 for b in bus)
                   and diff_const(bus[0]['addr'], sp16, env, 16) == 0xffff
                   and diff_const(bus[1]['addr'], sp16, env, 16) == 0xfffe
-                  and equal_mod(O(16, 'zext', bus[0]['value']), O(16, 'shr', val16, C(16, 8)), env, 16)
-                  and equal_mod(O(16, 'zext', bus[1]['value']), O(16, 'and', val16, C(16, 0xff)), env, 16)
+                  and is_byte(bus[0]['value'], exp_hi, 'hi')
+                  and is_byte(bus[1]['value'], exp_lo, 'lo')
                   and diff_const(spf, sp16, env, 16) == 0xfffe and hi16)
-            if not ok:
-                # accept structurally equal value terms (no affine form for shifts of symbols)
-                ok = (len(bus) == 2 and all(b['kind'] == 'w' and b['width'] == 8 for b in bus)
-                      and diff_const(bus[0]['addr'], sp16, env, 16) == 0xffff
-                      and diff_const(bus[1]['addr'], sp16, env, 16) == 0xfffe
-                      and value_is_byte(bus[0]['value'], val16, 'hi', env)
-                      and value_is_byte(bus[1]['value'], val16, 'lo', env)
-                      and diff_const(spf, sp16, env, 16) == 0xfffe and hi16)
             desc = 'write high byte at SP-1 then low byte at SP-2, SP -= 2 (mod 2^16)'
         else:
             ok = (len(bus) == 2 and all(b['kind'] == 'r' and b['width'] == 8 for b in bus)
